@@ -1587,10 +1587,17 @@ func TestVerifC10(t *testing.T) {
 			c := vclassifier(th)
 			every := 10
 			if th < 0.5 {
-				limit, every = 30*time.Minute, 300
+				limit, every = 30*time.Minute, 60
 			}
 			for i, in := range inputs {
 				if i%every == 0 {
+					if th < 0.5 && len(in.data) > 400 {
+						// at a threshold near 0 nothing is filtered: the number of candidate ranges grows
+						// quadratically with the input and each costs a diff against each of 431 documents
+						// (hours for a 10 kB text, all of it terminating work) — only short inputs here;
+						// long ones meet threshold 0 on the small corpora above
+						in = vinput{id: in.id, data: in.data[:400]}
+					}
 					run(fmt.Sprintf("full%v", th), c, in)
 				}
 			}
